@@ -117,9 +117,11 @@ def input_method_term(facts, fn, wrapped_field='input'):
     ps = fn['params']
     if ps and ps[0] and ps[0]['k'] == 'bind':
         ctx.env[ps[0]['v']] = ('self',)
-    for p in ps[1:]:
+    # parameters are named as in the trait declaration, whatever the impl calls them
+    canon = {'read': ['into'], 'on_before_alloc_mem': ['size']}.get(fn.get('method'), [])
+    for idx, p in enumerate(ps[1:]):
         if p and p['k'] == 'bind':
-            ctx.env[p['v']] = ('param', p['name'], p.get('ty'))
+            ctx.env[p['v']] = ('param', canon[idx] if idx < len(canon) else p['name'], p.get('ty'))
     # which field of self is the wrapped input?
     adt = (fn.get('self_ty') or {}).get('path')
     a = facts.adt_by_path.get(adt)
